@@ -156,7 +156,8 @@ def _case(rng, prefix, j, L=12, sel=None, password="", delay=None, profile="rele
     if password:
         argv += ["--vanity-password", password]
     nd = len(prefix) - 2
-    ent = {"MODE": "pass", "CAP": CAPS.get(nd, 190000)}
+    from ..run.core import vanity_cap
+    ent = {"MODE": "pass", "CAP": vanity_cap(nd, j)}
     if delay:
         ent["DELAY"] = delay
     return {"j": "vanity", "profile": profile,
@@ -230,6 +231,6 @@ def extra_phases(ctx, tier, seed):
     specs = []
     for i in range(20):
         d = rng.choice("0123456789abcdefABCDEF")
-        specs.append({"argv": ["new", "--vanity-prefix", "0x" + d, "-j", "16"], "ent": {"MODE": "pass", "CAP": 800, "DELAY": _rand_delay(rng, 16)}})
+        specs.append({"argv": ["new", "--vanity-prefix", "0x" + d, "-j", "16"], "ent": {"MODE": "pass", "CAP": core.vanity_cap(1, 16), "DELAY": _rand_delay(rng, 16)}})
     summ, viol = sanitize.tsan_vanity(specs, ctx.run_dir, ctx.bins.get("interposer"))
     return {"sanitizers": [summ], "evaluations": summ["executions"], "buckets": {"sanitizer-executions:ThreadSanitizer": summ["executions"]}}, viol
